@@ -23,7 +23,10 @@ Oracle (the statement, clause by clause; reference code in mc/c17_ref.py):
              returns a score whose notes (tie chains merged) have exactly the file's multiset of
              MIDI pitches, each pitch on the note (start tick, end tick) it has in the file; with
              estimate_key the parts carry the estimated key at time 0; with estimated voices every
-             note has a positive voice.
+             note has a positive voice, and under the assign modes that give no voices (1, 3, 4, 5)
+             the stored voices partition the notes of every part exactly as the voices estimate_voices
+             returned to the importer for the file's note array do (partitions, not numbers; tied
+             continuations stay in the voice of their head).
 """
 import itertools
 import os
@@ -51,6 +54,8 @@ ASSUMPTIONS = [
     "valid key names = the 15 major and 15 minor key-signature names (liberal reading)",
     "importer: no two equal pitches touch or overlap inside one (track, channel) (note pairing is C04's subject); onsets/durations are whole quarters and serve only to identify which note carries which pitch; tie chains count once and every chain member must have the pitch of its head",
     "importer: estimate_voice_info fills voices only where the assign mode gives none (the code's reading of the docstring)",
+    "importer: the voices estimated for the file are observed at the importer's own call analysis.estimate_voices(note_array) through a pass-through recorder (estimate_voices is not a pure function of its input: streams are ordered through a set of objects, so results on inputs with ties vary between calls and cannot be recomputed); the recorded (onset_div, pitch, duration_div) rows must be exactly the file's notes in ticks, otherwise (or without exactly one such call) the partition clause gives no verdict (outcome partition=unobserved)",
+    "importer: stored voices are compared per part (notes sharing a part under modes 1/5 = same track and channel, 3 = same track, 4 = all), as partitions; notes equal in onset, duration and pitch are interchangeable",
     "mido (MIDI file format) and numpy are trusted",
 ]
 CHUNK = 12
@@ -330,6 +335,116 @@ def eval_key(case):
 # MIDI importer
 
 
+class _VoiceCallRecorder:
+    """Pass-through observer of the importer's estimate_voices call (the property's mechanism
+    "use by the MIDI score importer"): records the array passed and a copy of the voices returned.
+    estimate_voices is not a function of its input alone where notes tie (streams are ordered through
+    a set of objects), so the voices the importer got can only be observed, not recomputed."""
+
+    def __init__(self):
+        self.calls = []
+        self.orig = None
+        self.module = None
+
+    def __enter__(self):
+        import partitura.musicanalysis as A
+
+        self.module = A
+        self.orig = A.estimate_voices
+        orig, calls = self.orig, self.calls
+
+        def estimate_voices(note_info, *args, **kwargs):
+            out = orig(note_info, *args, **kwargs)
+            try:
+                calls.append((np.array(note_info, copy=True), np.array(out, copy=True)))
+            except Exception:
+                calls.append((None, None))
+            return out
+
+        A.estimate_voices = estimate_voices
+        return self
+
+    def __exit__(self, *exc):
+        self.module.estimate_voices = self.orig
+        return False
+
+
+def _recorded_rows(calls):
+    """[((start tick, end tick, pitch), voice)] of the one recorded call, or None."""
+    if len(calls) != 1 or calls[0][0] is None:
+        return None
+    arr, v = calls[0]
+    names = getattr(arr.dtype, "names", None) or ()
+    if not all(f in names for f in ("onset_div", "pitch", "duration_div")) or v.shape != arr.shape or v.dtype.kind not in "iu":
+        return None
+    return [((int(o), int(o) + int(d), int(p)), int(x)) for o, p, d, x in
+            zip(arr["onset_div"].tolist(), arr["pitch"].tolist(), arr["duration_div"].tolist(), v.tolist())]
+
+
+def _check_importer_partition(res, tracks, ppq, mode, part_voices, calls, ctx):
+    """The voices stored in the score partition the notes of every part exactly as the voices that
+    estimate_voices returned to the importer for the file's note array do (numbers are not compared;
+    notes equal in onset, duration and pitch are interchangeable)."""
+    for pv in part_voices:
+        for key, v, cont in pv:
+            if any(c != v for c in cont):
+                res.fail("importer-estimated-voices-partition", expected="tied continuations in the voice of the note they continue",
+                         observed=dict(note=list(key), voice=int(v), continuations=[int(c) for c in cont]),
+                         where="load_score_midi", detail=ctx)
+                return " partition=tie"
+    rows = _recorded_rows(calls)
+    notes = R.file_note_order(tracks, ppq)
+    fkeys = [(o, o + d, p) for o, p, d, _, _ in notes]
+    if rows is None or Counter(k for k, _ in rows) != Counter(fkeys):
+        # the importer estimated voices in another way than one call on the file's (onset_div, pitch,
+        # duration_div) rows: nothing to compare the stored voices with
+        return " partition=unobserved"
+    groups = [R.part_group_of(mode, tr, ch) for _, _, _, tr, ch in notes]
+    observed = Counter(R.canon_partition([k for k, _, _ in pv], [int(v) for _, v, _ in pv]) for pv in part_voices)
+    # estimated voice of every file note: rows and notes of equal key are interchangeable, so every
+    # distinct way of handing the voices of such rows to the notes of that key is tried
+    idx_by_key, voices_by_key = {}, {}
+    for i, k in enumerate(fkeys):
+        idx_by_key.setdefault(k, []).append(i)
+    for k, v in rows:
+        voices_by_key.setdefault(k, []).append(v)
+    options = []
+    total = 1
+    for k in sorted(idx_by_key):
+        vs = voices_by_key[k]
+        if len(set(vs)) == 1 or len(set(groups[i] for i in idx_by_key[k])) == 1:
+            opts = [tuple(vs)]
+        else:
+            opts = sorted(set(itertools.permutations(vs)))
+        total *= len(opts)
+        options.append((idx_by_key[k], opts))
+    if total > 2000:
+        return " partition=ambiguous"
+    first = None
+    for choice in itertools.product(*[opts for _, opts in options]):
+        lab = [None] * len(notes)
+        for (idxs, _), vs in zip(options, choice):
+            for i, v in zip(idxs, vs):
+                lab[i] = v
+        by_group = {}
+        for i, g in enumerate(groups):
+            by_group.setdefault(g, []).append(i)
+        expected = Counter(R.canon_partition([fkeys[i] for i in g], [lab[i] for i in g]) for g in by_group.values())
+        if first is None:
+            first = expected
+        if expected == observed:
+            return " partition=ok/%d" % min(len(set(v for _, v in rows)), 3)
+    res.fail("importer-estimated-voices-partition",
+             expected=_fmt_partitions(first), observed=_fmt_partitions(observed), where="load_score_midi",
+             detail="notes (start tick, end tick, pitch) of each part grouped by stored voice vs grouped by the voice "
+                    "estimate_voices returned for them (rows %r); %s" % ([[list(k), v] for k, v in rows][:12], ctx))
+    return " partition=differs"
+
+
+def _fmt_partitions(counter):
+    return [[[list(k) for k in block] for block in part] for part in sorted(counter.elements())]
+
+
 def eval_midi(case):
     import partitura.score as S
     from partitura.io.importmidi import load_score_midi
@@ -341,9 +456,11 @@ def eval_midi(case):
     os.close(fd)
     R.write_midi(path, tracks, ppq)
     ctx = "part_voice_assign_mode=%d estimate_voice_info=%r estimate_key=%r ppq=%d tracks=%r" % (mode, ev, ek, ppq, tracks)
+    rec = _VoiceCallRecorder()
     try:
-        ok, sc = guarded(res, "importer-total", load_score_midi, path, part_voice_assign_mode=mode,
-                         estimate_voice_info=ev, estimate_key=ek)
+        with rec:
+            ok, sc = guarded(res, "importer-total", load_score_midi, path, part_voice_assign_mode=mode,
+                             estimate_voice_info=ev, estimate_key=ek)
     finally:
         try:
             os.remove(path)
@@ -362,22 +479,28 @@ def eval_midi(case):
     got_at = Counter()
     voices_bad = []
     chain_bad = []
+    part_voices = []  # per part: [(start tick, end tick, pitch), voice of the head, voices of tied continuations]
     keys = []
     parts = list(sc.parts)
     for part in parts:
+        pv = []
+        part_voices.append(pv)
         for n in part.iter_all(S.Note, include_subclasses=True):
             if n.tie_prev is None:
                 got[int(n.midi_pitch)] += 1
                 m = n.tie_next
                 last = n
                 hops = 0
+                cont = []
                 while m is not None and hops < 1000:
                     if int(m.midi_pitch) != int(n.midi_pitch):
                         chain_bad.append((int(n.midi_pitch), int(m.midi_pitch)))
+                    cont.append(m.voice)
                     last = m
                     m = m.tie_next
                     hops += 1
                 got_at[(int(n.start.t), int(last.end.t), int(n.midi_pitch))] += 1
+                pv.append(((int(n.start.t), int(last.end.t), int(n.midi_pitch)), n.voice, cont))
             if not (isinstance(n.voice, (int, np.integer)) and n.voice >= 1):
                 voices_bad.append((n.id, n.voice))
         keys.append([(ks.start.t, ks.fifths, ks.mode) for ks in part.iter_all(S.KeySignature)])
@@ -392,6 +515,8 @@ def eval_midi(case):
     if ev and voices_bad:
         res.fail("importer-estimated-voices-positive", expected="every note has a voice >= 1", observed=voices_bad[:6],
                  where="load_score_midi", detail=ctx)
+    if ev and mode in R.NO_VOICE_MODES and not res.violations:
+        res.outcome += _check_importer_partition(res, tracks, ppq, mode, part_voices, rec.calls, ctx)
     if ek:
         # the key of all notes of the file, durations in ticks
         allnotes = [n for notes in tracks for n in notes]
@@ -677,6 +802,77 @@ def gen_midi_periodic(lengths):
     return g
 
 
+VOICE_PITCH = [48, 60, 72]
+NV_MODES = list(R.NO_VOICE_MODES)
+
+
+def gen_midi_voices(kmax, pitches, all_modes_upto, quick_block=None):
+    """estimate_voice_info=True under the assign modes that give no voices: all multisets of
+    1..kmax notes, three track/channel splits; every no-voice mode for <= all_modes_upto notes,
+    the mode cycled for more notes; estimate_key cycled."""
+    def g():
+        i = 0
+        cells = [(o, d, p) for o in ON for d in DU for p in pitches]
+        for k in range(1, kmax + 1):
+            for rows in R.multisets(cells, k):
+                for how in ("single", "two-ch", "two-tr"):
+                    if how != "single" and k < 2:
+                        continue
+                    tracks = _split(rows, how)
+                    if not R.midi_precondition(tracks):
+                        continue
+                    modes = NV_MODES if k <= all_modes_upto else [NV_MODES[i % 4]]
+                    for mode in modes:
+                        case = dict(k="midi", tracks=tracks, ppq=4, mode=mode, voices=True, key=(i % 3 == 0))
+                        i += 1
+                        if quick_block is not None and k > all_modes_upto and block_of(case, quick_block[0]) != quick_block[1]:
+                            continue
+                        yield case
+    return g
+
+
+LINE_BASE = [72, 48, 60]
+LINE_STEPS = [0, 2, 4, 5]
+LINE_SPLITS = ["single", "line-ch", "line-tr", "alt-ch"]
+
+
+def gen_midi_lines(shapes, full_shapes=()):
+    """polyphonic textures: L lines (line l around pitch LINE_BASE[l], step t at LINE_BASE[l] +
+    LINE_STEPS[t]) over T onsets; every cell is a rest, a quarter, a half note (overlapping the next
+    onset) or a zero-length note: all 4^(L*T) textures with at least one note."""
+    def g():
+        i = 0
+        for L, T in shapes:
+            for cells in itertools.product((None, 1, 2, 0), repeat=L * T):
+                notes = []  # (line, onset, duration, pitch)
+                for l in range(L):
+                    for t in range(T):
+                        d = cells[l * T + t]
+                        if d is not None:
+                            notes.append((l, t, d, LINE_BASE[l] + LINE_STEPS[t]))
+                if not notes:
+                    continue
+                notes.sort(key=lambda x: (x[1], x[0]))
+                combos = [(h, m) for h in LINE_SPLITS for m in NV_MODES]
+                if (L, T) not in full_shapes:
+                    combos = [combos[i % len(combos)]]
+                for how, mode in combos:
+                    if how == "single":
+                        tracks = [[[0, o, d, p] for l, o, d, p in notes]]
+                    elif how == "line-ch":
+                        tracks = [[[l, o, d, p] for l, o, d, p in notes]]
+                    elif how == "alt-ch":
+                        tracks = [[[j % 2, o, d, p] for j, (l, o, d, p) in enumerate(notes)]]
+                    else:
+                        tracks = [[[0, o, d, p] for l, o, d, p in notes if l == ll] for ll in range(L)]
+                        tracks = [t for t in tracks if t]
+                    if not R.midi_precondition(tracks):
+                        continue
+                    yield dict(k="midi", tracks=tracks, ppq=[4, 480, 6][i % 3], mode=mode, voices=True, key=(i % 5 == 0))
+                i += 1
+    return g
+
+
 def spaces(tier, seed):
     quick = tier == "quick"
     sp = []
@@ -750,6 +946,16 @@ def spaces(tier, seed):
         sp.append(Space("midi-three", gen_midi(3, 3, [60, 61, 108], base_plans), True,
                         "files from all multisets of 3 notes over onset x duration x pitch {60,61,108}; splits and modes as quick midi-small; 4 option combinations"))
         ML = list(range(1, 121))
+    if quick:
+        sp.append(Space("midi-voices", gen_midi_voices(3, VOICE_PITCH, 2, (4, seed % 4)), True,
+                        "estimate_voice_info=True under the assign modes without voices (1, 3, 4, 5): files from all multisets of 1..3 notes over onset {0,1,2} x duration {0,1,2} quarters x pitch {48,60,72}; one track / two channels / two tracks; 1..2 notes: every no-voice mode; 3 notes: mode cycled, hash block seed%4 of 4; estimate_key on for every third; stored voices compared as a partition of each part's notes with estimate_voices on the file's note array"))
+        sp.append(Space("midi-voices-lines", gen_midi_lines([(2, 3)]), True,
+                        "estimate_voice_info=True, no-voice assign modes: all 4^6 - 1 textures of 2 lines (around pitch 72 and 48) x 3 onsets, each cell rest / quarter / half note overlapping the next onset / zero-length note; split (one track-channel, channel per line, track per line, alternating channels) x mode (1,3,4,5) cycled over the 16 combinations; ppq {4,480,6} cycled"))
+    else:
+        sp.append(Space("midi-voices", gen_midi_voices(4, VOICE_PITCH, 3), True,
+                        "estimate_voice_info=True under the assign modes without voices (1, 3, 4, 5): files from all multisets of 1..4 notes over onset {0,1,2} x duration {0,1,2} quarters x pitch {48,60,72}; one track / two channels / two tracks; 1..3 notes: every no-voice mode; 4 notes: mode cycled; stored voices compared as a partition of each part's notes with estimate_voices on the file's note array"))
+        sp.append(Space("midi-voices-lines", gen_midi_lines([(2, 3), (3, 2), (2, 4)], full_shapes=[(2, 3)]), True,
+                        "estimate_voice_info=True, no-voice assign modes: all textures of 2 lines x 3 onsets (every one of 4 splits x 4 modes), 3 lines x 2 onsets and 2 lines x 4 onsets (split x mode cycled); cells rest / quarter / overlapping half note / zero-length note; ppq cycled"))
     sp.append(Space("midi-periodic", gen_midi_periodic(ML), True,
                     "4 motifs x 4 time shapes repeated to every length; split, ppq {4,480,6}, assign mode and option combination cycled"))
     return sp
